@@ -66,7 +66,7 @@ def _values(rng: Rng, n, m, t):
 def _mask(rng: Rng, n, m, kind):
     if kind == "none":
         return [[1] * m for _ in range(n)]
-    p = dict(random=0.7, heavy=0.35, ends=0.8, onefull=0.6)[kind]
+    p = dict(random=0.7, heavy=0.35, ends=0.8, onefull=0.6, sparse60=0.6)[kind]
     M = [[1 if rng.random() < p else 0 for _ in range(m)] for _ in range(n)]
     if kind == "ends":
         for r in M:
@@ -107,6 +107,11 @@ def gen_cases(rng: Rng, tier):
             continue
         n = rng.randint(2, 12) if tier == "thorough" or rng.random() < 0.2 else rng.randint(2, 5)
         m = rng.randint(3, 12) if tier == "thorough" or rng.random() < 0.2 else rng.randint(3, 8)
+        sparse15 = (k % 32 == 3)
+        if sparse15:
+            # every run: sparse samples on a longer grid (8 curves, 15 points, ~60 % observed): smoothed variances go
+            # negative somewhere and some pairs of grid points are never observed together
+            n, m = 8, 15
         lo = rng.choice([0, 0, 1, -2, 10])
         scale = rng.choice([1, 1, 2, 4])
         if k % 6 == 4:
@@ -116,16 +121,17 @@ def gen_cases(rng: Rng, tier):
         t = rng.grid(m, lo=lo, scale=scale)
         V, vk = _values(rng, n, m, t)
         V2 = [rng.dyadics(m, -3, 3, 2) for _ in range(n)]
-        mkk = mk_kinds[k % len(mk_kinds)]
+        mkk = "sparse60" if sparse15 else mk_kinds[k % len(mk_kinds)]
         M = _mask(rng, n, m, mkk)
         span = t[-1] - t[0]
         yield dict(
             kind="enc", t=[rs(x) for x in t], V=_S(V), V2=_S(V2), M=M, vk=vk, mk=mkk,
-            bw=rs(span * rng.choice([Fraction(1, 4), Fraction(1, 2), Fraction(1), Fraction(2)])),
+            bw=rs(span * (Fraction(2, 5) if sparse15 else rng.choice([Fraction(1, 4), Fraction(1, 2), Fraction(1), Fraction(2)]))),
+            s2=rs(rng.choice([Fraction(1, 4), Fraction(1, 4), Fraction(1, 2 ** 40), Fraction(2 ** 20)])),
             kernel=rng.choice(["epanechnikov", "epanechnikov", "gaussian", "tri_cube", "bi_square"]),
             lpdeg=rng.choice([0, 1, 1, 2]),
-            nseg=rng.randint(1, 5), psdeg=rng.randint(1, 3), pen=rs(rng.choice([Fraction(1, 4), 1, 1, 8, 0])),
-            order=rng.choice([1, 2, 2, 3]), a=rs(rng.choice([rng.dyadic(-3, 3, 2), Fraction(2), Fraction(0)])),
+            nseg=rng.randint(1, 5), psdeg=rng.randint(1, 3), pen=rs(rng.choice([Fraction(1, 4), 1, 1, 8, 0, Fraction(1, 2 ** 30), Fraction(2 ** 30)])),
+            order=rng.choice([1, 2, 2, 3]), a=rs(rng.choice([rng.dyadic(-3, 3, 2), Fraction(2), Fraction(0), Fraction(1, 2 ** 40), Fraction(2 ** 40)])),
             csv=(k % 10 == 7), strided=(k % 4 == 1), penspell=rng.choice(["tuple", "list", "int", "float", "np", "array"]),
         )
 
@@ -201,6 +207,29 @@ def _content(fd):
             if not math.isnan(b):
                 rows.append([float(a), pos, float(b)])
     return rows
+
+
+def _at_observed(res, orig):
+    """(point, position, value) of a result at the cells OBSERVED in the input (a NaN produced there is kept)."""
+    rows = []
+    for pos, (lab, lab0) in enumerate(zip(res.argvals.keys(), orig.argvals.keys())):
+        x = np.asarray(res.argvals[lab]["input_dim_0"], dtype=float)
+        y = np.asarray(res.values[lab], dtype=float)
+        y0 = np.asarray(orig.values[lab0], dtype=float)
+        for a, b, b0 in zip(x, y, y0):
+            if not math.isnan(b0):
+                rows.append([float(a), pos, float(b)])
+    return rows
+
+
+def _fake_samples(res, orig):
+    """Number of cells missing in the input that hold a number in the result."""
+    k = 0
+    for lab, lab0 in zip(res.argvals.keys(), orig.argvals.keys()):
+        y = np.asarray(res.values[lab], dtype=float)
+        y0 = np.asarray(orig.values[lab0], dtype=float)
+        k += int((np.isnan(y0) & ~np.isnan(y)).sum())
+    return k
 
 
 def _dense_content(fd):
@@ -318,8 +347,22 @@ def _ops(fd, case, irregular=True):
         _try(out, "cov_raw_lp", lambda: _vals(fd.covariance(smooth=False, method_smoothing="LP", kwargs_center=dict(bandwidth=bw)))[0])
         _try(out, "cov_lp", lambda: _vals(fd.covariance(method_smoothing="LP", bandwidth=bw, kwargs_center=dict(bandwidth=bw)))[0])
         _try(out, "cov_default", lambda: _vals(fd.covariance())[0])
+        ppos = max(p0, 0.25)
+        cps = dict(n_segments=min(case["nseg"], 4), degree=case["psdeg"])
+        _try(out, "cov_ps", lambda: _vals(fd.covariance(method_smoothing="PS", penalty=(ppos, ppos), kwargs_center=dict(penalty=pen_canon, **pskw), **cps))[0])
+        # standardisation with every bandwidth explicit (inner centring included)
+        skw = dict(bandwidth=bw, kwargs_center=dict(bandwidth=bw))
+        for key_, ctr in (("std_lp", True), ("std_nc_lp", False)):
+            try:
+                with warnings.catch_warnings():
+                    warnings.simplefilter("ignore")
+                    r_ = fd.standardize(center=ctr, **skw)
+                out[key_] = _at_observed(r_, fd)
+                out[key_ + "_fake"] = _fake_samples(r_, fd)
+            except Exception as e:
+                out[key_] = "error:" + err_class(e) + ":" + str(e)[:80]
         _try(out, "gram_lp", lambda: np.asarray(fd.inner_product(noise_variance=0, method_smoothing="LP", bandwidth=bw), dtype=float).tolist())
-        _try(out, "gram_lp_s2", lambda: np.asarray(fd.inner_product(noise_variance=0.25, method_smoothing="LP", bandwidth=bw), dtype=float).tolist())
+        _try(out, "gram_lp_s2", lambda: np.asarray(fd.inner_product(noise_variance=float(F(case.get("s2", "1/4"))), method_smoothing="LP", bandwidth=bw), dtype=float).tolist())
         _try(out, "gram_lp_nv", lambda: np.asarray(fd.inner_product(method_smoothing="LP", bandwidth=bw), dtype=float).tolist())
         _try(out, "gram_default", lambda: np.asarray(fd.inner_product(), dtype=float).tolist())
         _try(out, "rescale_lp", lambda: float(fd.rescale(method_smoothing="LP", bandwidth=bw)[1]))
@@ -329,8 +372,11 @@ def _ops(fd, case, irregular=True):
     else:
         _try(out, "cov_raw_nc", lambda: _vals(fd.covariance(center=False))[0])
         _try(out, "cov_lp", lambda: _vals(fd.covariance(method_smoothing="LP", bandwidth=bw, kwargs_center=dict(bandwidth=bw)))[0])
+        ppos = max(p0, 0.25)
+        cps = dict(n_segments=min(case["nseg"], 4), degree=case["psdeg"])
+        _try(out, "cov_ps", lambda: _vals(fd.covariance(method_smoothing="PS", penalty=(ppos, ppos), kwargs_center=dict(penalty=pen_canon, **pskw), **cps))[0])
         _try(out, "gram_none", lambda: np.asarray(fd.inner_product(noise_variance=0), dtype=float).tolist())
-        _try(out, "gram_none_s2", lambda: np.asarray(fd.inner_product(noise_variance=0.25), dtype=float).tolist())
+        _try(out, "gram_none_s2", lambda: np.asarray(fd.inner_product(noise_variance=float(F(case.get("s2", "1/4")))), dtype=float).tolist())
         _try(out, "gram_lp", lambda: np.asarray(fd.inner_product(noise_variance=0, method_smoothing="LP", bandwidth=bw), dtype=float).tolist())
         _try(out, "to_basis", lambda: np.asarray(fd.to_basis(penalty=pen, **pskw).coefficients, dtype=float).tolist())
     # second call on the same object (state left by the calls above must not matter)
@@ -728,10 +774,11 @@ ENTRY = {
     "arith_add": "arithmetic", "arith_sub": "arithmetic", "arith_mul": "arithmetic", "arith_div": "arithmetic", "arith_floordiv": "arithmetic",
     "smooth_lp_pts": "smooth", "smooth_ps_pts": "smooth", "smooth_interp_pts": "smooth", "mean_lp_pts": "mean",
     "divfd": "arithmetic", "floordivfd": "arithmetic", "divfd_nsq": "arithmetic", "divfd_npoints": "arithmetic", "divfd_long": "arithmetic",
+    "cov_ps": "covariance", "std_lp": "standardize", "std_nc_lp": "standardize",
     "center_given": "center", "nsq_stand": "norm", "gram_lp_s2": "inner_product", "divnum": "arithmetic", "tb_grid": "to_basis",
 }
 DEFAULT_BW = {"smooth_lp_default", "mean_default", "center_default", "cov_default", "gram_default", "rescale_default"}
-ROWS = {"to_long", "center_lp", "center_default", "center_given", "normalize", "add", "sub", "mulfd", "mul", "rmul", "addnum", "divnum", "divfd", "floordivfd", "divfd_long"}
+ROWS = {"to_long", "center_lp", "center_default", "center_given", "normalize", "add", "sub", "mulfd", "mul", "rmul", "addnum", "divnum", "divfd", "floordivfd", "divfd_long", "std_lp", "std_nc_lp"}
 
 
 def _flat(key, v):
@@ -827,6 +874,11 @@ def _oracle_enc(case, impl):
         if isinstance(tb, list) and isinstance(sp, list):
             if not np.allclose(np.array(tb), np.array(sp), rtol=0, atol=1e-6 * max(1.0, float(np.abs(np.array(sp)).max()))):
                 bad("to_basis_to_grid", "to_basis", f"{e} encoding: to_basis().to_grid() differs from smooth(method='PS') with the same settings")
+    for key_ in ("std_lp", "std_nc_lp"):
+        k_ = A.get(key_ + "_fake")
+        if isinstance(k_, int) and k_ > 0:
+            bad("standardize_content", key_, f"NaN encoding: {k_} samples MISSING in the data hold a number (0) after standardize(): "
+                "the result has observations the data do not have (the ragged encoding cannot)", ["standardize_fills_missing"])
     for nm, r in (impl.get("mixed") or {}).items():
         if isinstance(r, str):
             bad("arithmetic_content", "arith_" + nm, f"NaN encoding, operands missing different samples: {r}")
@@ -861,7 +913,7 @@ def _oracle_enc(case, impl):
                  ("add", "add", 1.0), ("mul", "mul", 1.0), ("to_basis", "to_basis", 1.0), ("smooth_lp_pts", "smooth_lp_pts", 1.0),
                  ("smooth_ps_pts", "smooth_ps_pts", 1.0), ("mean_lp_pts", "mean_lp_pts", 1.0), ("center_given", "center_given", 1.0),
                  ("nsq_stand", "nsq_stand", 1.0), ("gram_lp_s2", "gram_none_s2", 1.0), ("divnum", "divnum", 1.0),
-                 ("divfd", "divfd", 1.0), ("floordivfd", "floordivfd", 1.0)]
+                 ("divfd", "divfd", 1.0), ("floordivfd", "floordivfd", 1.0), ("cov_ps", "cov_ps", n / (n - 1))]
         for ki, kd, fac in pairs:
             for e, o_ in (("NaN", A), ("ragged", B)):
                 if ki not in o_ or kd not in Dn:
